@@ -864,7 +864,7 @@ def run(r, n_override=None, bias=None):
         case, info = gen_case(r.rng, op=op, force_layout=bias)
         check_one(r, case, reqs, pend, [f"kind:{info['kind']}", f"layout:{info['mode']}", f"data_vars:{info['form']}"]
                   + (["dtype-placement:int-first+later-nan"] if info["placed"] else []),
-                  rng=r.rng, meta=(k % 5 == 0), spell=(k % 3 != 0))
+                  rng=r.rng, meta=(k % 5 == 0), spell=True)
         if len(reqs) >= 4000:
             flush(r, reqs, pend)
     n_edge = {"quick": 8000, "thorough": 100000}[r.tier] if n_override is None else n_override
@@ -872,7 +872,7 @@ def run(r, n_override=None, bias=None):
         op = ALL_OPS[k % len(ALL_OPS)]
         case, info = gen_edge(r.rng, op=op, force_layout=bias)
         check_one(r, case, reqs, pend, ["edge", f"kind:{info['kind']}", f"layout:{info['mode']}", f"data_vars:{info['form']}"],
-                  rng=r.rng, meta=(k % 7 == 0), spell=(k % 3 != 0))
+                  rng=r.rng, meta=(k % 7 == 0), spell=True)
         if len(reqs) >= 4000:
             flush(r, reqs, pend)
     flush(r, reqs, pend)
